@@ -418,4 +418,13 @@ theorem attrsNodup_of_check {h : Heap} (hb : attrsNodupB h = true) : AttrsNodup 
   have := List.all_eq_true.mp hb _ (List.mem_of_getElem? ha)
   simpa using this
 
+
+/-- C03's well-formedness (`Heap.wf`: every `vars(obj)` and every dict has pairwise distinct keys -- Python dict
+semantics) gives the distinct-keys invariant the loop theorems use; every DSL statement preserves it (`runOp_nodup`) -/
+theorem attrsNodup_of_wf {h : Heap} (hw : Heap.wf h = true) : AttrsNodup h := by
+  intro a cls attrs ha
+  have := List.all_eq_true.mp hw _ (List.mem_of_getElem? ha)
+  simp only [Obj.wf, Bool.and_eq_true, decide_eq_true_eq] at this
+  exact this.1
+
 end Flax.Nnx
